@@ -10,6 +10,11 @@ kinds:  'sswitch'    a REAL SimplePacketSwitch (FlowDemux over n Ports)
                      one instance may show up at a part of the other (instances-interfere)
         'flowdemux'  a REAL FlowDemux over Ports, with or without a default output
         'fibdemux'   a REAL FIBDemux over Ports with table / default output / end devices
+        'randdemux'  a REAL RandomDemux over Ports: weight lists normalised, un-normalised (sum < 1, sum > 1), with zero entries, a single
+                     output; `probs` reassigned between two packets in some cases; random.random() scripted (one draw per packet,
+                     consumed by the real random.choices).  The index of every packet is computed IN COQ by `choices_index`
+                     (coq/Elem/ComposeRandom.v, a transcription of random.choices with one draw) and compared with what the real
+                     code did; the composite `rdemux_elem oracle t0 ports` is replayed with that oracle
         'nsplitter'  a REAL NSplitter(N) with a Port behind every output: EVERY output receives EVERY packet exactly once (output 0 the
                      object itself, the others shallow copies); model `mcast t0 (fun _ _ => true) ports` (coq/Elem/ComposeCast.v)
         'hub'        a REAL Hub whose endpoints sit behind Ports: every endpoint except the packet's source receives the packet (the
@@ -67,13 +72,13 @@ def rule_fibdemux(nouts, fib, ends, default, flow):
 
 class RoutePart:
     name = "route"
-    kinds = ["sswitch", "fswitch", "fswitch2", "flowdemux", "fibdemux", "nsplitter", "hub"]
+    kinds = ["sswitch", "fswitch", "fswitch2", "flowdemux", "fibdemux", "randdemux", "nsplitter", "hub"]
     serves = ["C08"]
     weight = 2
     props_files = {"C08": ["Props/C08_Route.v"]}
     coq_imports = ["From ONL Require Import Base.Cmp Elem.Packet Elem.StoreQ Elem.HeapList Elem.WFQServer Elem.WFQ Elem.VC Elem.DRR "
                    "Elem.SchedBase Elem.SP Elem.Port Route.Demux Elem.Iface Elem.Compose Elem.ComposePar Elem.ComposeFan "
-                   "Elem.ComposeSwitch Elem.ComposeCast Route.Hub Elem.AdaptPort Elem.AdaptSched Elem.AdaptSrv Elem.AdaptDRR Elem.AdaptSwitch."]
+                   "Elem.ComposeSwitch Elem.ComposeRandom Elem.ComposeCast Route.Hub Elem.AdaptPort Elem.AdaptSched Elem.AdaptSrv Elem.AdaptDRR Elem.AdaptSwitch."]
     nontrivial_rule = {"C08": (
         "sswitch: 2-4 ports, rates 512/1024/4096, packet limit None/1/2/3, flows -1..n (one flow per port, some without a port); "
         "fswitch: 2-3 ports, server SP / WFQ (equal power-of-two weights) / VirtualClock / DRR (half of the time with packets above "
@@ -106,9 +111,29 @@ class RoutePart:
             return self._gen_fswitch(rng)
         if r < 0.62:
             return self._gen_fswitch2(rng)
-        if r < 0.82:
-            return self._gen_demux(rng, "flowdemux" if r < 0.7 else "fibdemux")
+        if r < 0.76:
+            return self._gen_demux(rng, "flowdemux" if r < 0.68 else "fibdemux")
+        if r < 0.84:
+            return self._gen_randdemux(rng)
         return self._gen_cast(rng, "nsplitter" if r < 0.91 else "hub")
+
+    WEIGHTS = {1: [[1], [F(1, 2)], [3]],
+               2: [[F(1, 2), F(1, 2)], [F(1, 4), F(3, 4)], [F(1, 4), F(1, 4)], [F(1, 8), F(1, 2)], [1, 3], [2, 2], [0, 1], [F(1, 2), 0]],
+               3: [[F(1, 4), F(1, 4), F(1, 2)], [F(1, 4), F(1, 4), F(1, 4)], [1, 1, 2], [0, F(1, 2), F(1, 2)], [F(1, 8), 0, F(1, 8)],
+                   [2, 1, 1], [F(1, 2), F(1, 4), 0]]}
+
+    def _gen_randdemux(self, rng):
+        n = rng.choice([1, 2, 2, 3, 3])
+        w = ec.gen_workload(rng, flows=(0, 1, 2), n_max=8, sizes=SIZES, burst_p=0.5)
+        npk = len(w["packets"])
+        case = {"kind": "randdemux", "nouts": n, "probs": [cf.qjson(x) for x in rng.choice(self.WEIGHTS[n])],
+                "draws": [cf.qjson(F(rng.randint(0, 7), 8)) for _ in range(npk)],
+                "rates": [rng.choice([0, 0, 512, 1024]) for _ in range(n)], "buffers": [rng.choice([None, None, 2]) for _ in range(n)],
+                "reprobs": None, "workload": w, "pre": rng.random() < 0.3}
+        if npk >= 2 and rng.random() < 0.35:
+            # the application reassigns the public attribute `probs` between two packets
+            case["reprobs"] = {"at": rng.randint(1, npk - 1), "probs": [cf.qjson(x) for x in rng.choice(self.WEIGHTS[n])]}
+        return case
 
     def _gen_cast(self, rng, kind):
         n = rng.choice([2, 3, 3])
@@ -237,6 +262,12 @@ class RoutePart:
                 for d in range(max(ends.values()) + 1):
                     stages.append({"el": "port", "rate": 0, "qlimit": None, "limit_bytes": False, "eid": "dx%d" % (4 + d)})
                     slots.append([len(stages) - 1])
+        elif k == "randdemux":
+            n = case["nouts"]
+            stages.append({"el": "randdemux", "nouts": n})
+            for i in range(n):
+                stages.append({"el": "port", "rate": case["rates"][i], "qlimit": case["buffers"][i], "limit_bytes": False, "eid": "dx%d" % i})
+                slots.append([1 + i])
         elif k in ("nsplitter", "hub"):
             n = case["nouts"]
             stages.append({"el": k, "nouts": n})
@@ -381,6 +412,27 @@ class RoutePart:
                 # the registration idiom of applications (tests/apps/fattree.py): item assignment on the demux the switch built
                 for f, d in dm["ends"].items():
                     demux.ends[f] = devs[d]
+        elif k == "randdemux":
+            from onl.netdev.demux import RandomDemux
+            from props.part_port import _num
+            for j in range(1, n):
+                st = stages[j]
+                objs[j] = Port(env, st["rate"], st["qlimit"], st["limit_bytes"], st["eid"])
+            demux = RandomDemux([objs[j] for j in range(1, n)], [_num(x) for x in case["probs"]])
+            top = demux
+            if case.get("reprobs"):
+                rp = case["reprobs"]
+
+                class Reconf:
+                    """the application: reassigns demux.probs just before the packet number `at` is put in"""
+                    count = 0
+
+                    def put(self_inner, p):
+                        if self_inner.count == rp["at"]:
+                            demux.probs = [_num(x) for x in rp["probs"]]
+                        self_inner.count += 1
+                        return demux.put(p)
+                top = Reconf()
         elif k in ("nsplitter", "hub"):
             for j in range(1, n):
                 st = stages[j]
@@ -512,6 +564,18 @@ class RoutePart:
             # a scheduler whose run() loops without yielding never comes back from env.step(): bound the run ourselves
             def _hang(signum, frame):
                 raise RuntimeError("a process of the switch loops without yielding")
+            import random as _random
+            from props.part_port import Script as PScript
+            draws = PScript([u for c in cases if c["kind"] == "randdemux" for u in c["draws"]])
+            scripted = any(c["kind"] == "randdemux" for c in cases)
+            saved_mod = None
+            if scripted:
+                # random.choices is a method of the hidden module-level Random instance and calls self.random(): script THAT
+                _random._inst.random = draws
+                import onl.netdev.demux as dmod
+                if callable(getattr(dmod, "random", None)):            # a demux that draws with `from random import random`
+                    saved_mod = dmod.random
+                    dmod.random = draws
             old_h = signal.signal(signal.SIGALRM, _hang)
             t_start = time.time()
             old_t = signal.setitimer(signal.ITIMER_REAL, 2.0, 0.5)     # repeating: every spinning process gets its own alarm
@@ -525,6 +589,10 @@ class RoutePart:
                 left = max(old_t[0] - (time.time() - t_start), 0.05) if old_t[0] else 0
                 signal.signal(signal.SIGALRM, old_h)
                 signal.setitimer(signal.ITIMER_REAL, left, 1.0 if left else 0)
+                if scripted:
+                    del _random._inst.random
+                    if saved_mod is not None:
+                        dmod.random = saved_mod
         # ---- the global log per instance, in the instance's own stage numbering ----
         def inst_of(g):
             for i in reversed(range(len(cases))):
@@ -589,7 +657,7 @@ class RoutePart:
                                   "quantum": [[cc, ec.qs(o.quantum[cc])] for cc, _ in st["weights"] if cc in o.quantum]})
                 else:
                     final.append({"received": o.packets_received, "total": o.total_packets})
-            out.append({"log": logs[i], "raised": h.raised, "exhausted": h.exhausted, "final": final})
+            out.append({"log": logs[i], "raised": h.raised, "exhausted": h.exhausted, "final": final, "draws_used": draws.n})
         return out, interfere[:3]
 
     # ---- log -> Coq ----------------------------------------------------------------------------------------------------------
@@ -629,6 +697,8 @@ class RoutePart:
                 br.append(self._elem_term(view, s[0]))
             else:
                 br.append(f"({self._elem_term(view, s[0])} >> {self._elem_term(view, s[1])})")
+        if case["kind"] == "randdemux":
+            return f"(rdemux_elem (fun p => nth (uid p) {self._rand_oracle(case)[0]} 0%nat) {q0} {cf.lst(br)})"
         if case["kind"] == "nsplitter":
             return f"(mcast {q0} (fun _ _ => true) {cf.lst(br)})"
         if case["kind"] == "hub":
@@ -647,8 +717,30 @@ class RoutePart:
             return (f"(fswitch_elem {c} {cf.opt(case['buffer'], cf.z)} {eid_fun('fs_')} {self._elem_term(view, 2)} {endl} {q0})")
         return f"(switch {self._route_term(dm)} {q0} {cf.nat(dm['nouts'])} {cf.lst(br)})"
 
+    def _rand_oracle(self, case, obs=None):
+        """RandomDemux: -> (the oracle as a Coq list indexed by uid, the same in put order, the observed indices in put order);
+        every entry is `choices_index weights-in-force draw`, evaluated by Coq"""
+        order = getattr(self, "_put_order", None) if obs is None else [e[1] for e in obs["log"] if e[0] == "put"]
+        self._put_order = order
+        by_uid, in_order = {}, []
+        for k, u in enumerate(order):
+            ws = case["probs"] if not case.get("reprobs") or k < case["reprobs"]["at"] else case["reprobs"]["probs"]
+            t = f"(choices_index {cf.lst([cf.q(x) for x in ws])} {cf.q(case['draws'][k])})" if k < len(case["draws"]) else "0%nat"
+            by_uid[u] = t
+            in_order.append(t)
+        top = (max(by_uid) + 1) if by_uid else 0
+        seen = []
+        if obs is not None:
+            for e in obs["log"]:
+                if e[0] == "put":
+                    hs = [o[1] for o in e[2] if o[0] == "hand"]
+                    seen.append(cf.nat(hs[0] - 1) if len(hs) == 1 and hs[0] >= 1 else "99%nat")
+        return cf.lst([by_uid.get(u, "0%nat") for u in range(top)]), cf.lst(in_order), cf.lst(seen)
+
     def _terms(self, case, obs):
         view, stages, slots, dm = self._view(case)
+        if case["kind"] == "randdemux":
+            self._rand_oracle(case, obs)
         for e in obs["log"]:
             if e[0] in ("put", "step") and any(o[0] == "hand" and o[1] < 0 for o in e[2]):
                 return None, None, "a packet was handed to an object that is no part of this switch"
@@ -738,7 +830,12 @@ class RoutePart:
             return f"false (* {x} *)"
         view, slots, dm = x
         nl = ";" + chr(10) + "    "
-        return " && ".join(stage_terms) + f" && pipe_agree {self._E(case, view, slots, dm)} {cf.lst(comp, sep=nl)}"
+        tie = ""
+        if case["kind"] == "randdemux":
+            # the transcription of random.choices against what CPython's did with the same draws, packet by packet
+            _, computed, seen = self._rand_oracle(case, obs)
+            tie = f"list_eqb Nat.eqb {computed} {seen} && "
+        return tie + " && ".join(stage_terms) + f" && pipe_agree {self._E(case, view, slots, dm)} {cf.lst(comp, sep=nl)}"
 
     def model_term(self, case):
         if case["kind"] == "fswitch2":
@@ -807,8 +904,23 @@ class RoutePart:
                 want = [slots[i][0] for i in self.wanted(dm, fl)]
                 if sorted(handed.get(u, [])) != want:
                     msgs.append(f"route-replicate: packet {u} of flow {fl} was handed to stages {handed.get(u, [])}, each of {want} must get it exactly once")
+        rand = dm["el"] == "randdemux"
+        chosen = {}
+        if rand:
+            # every packet handed in leaves by exactly one output, one whose weight (as assigned at that moment) is positive
+            for k, u in enumerate(injected):
+                got = handed.get(u, [])
+                ws = case["probs"] if not case.get("reprobs") or k < case["reprobs"]["at"] else case["reprobs"]["probs"]
+                if len(got) != 1 or not (1 <= got[0] <= dm["nouts"]):
+                    msgs.append(f"route-random-demux: packet {u} was handed to stages {got}; exactly one of the {dm['nouts']} outputs must get it")
+                else:
+                    chosen[u] = got[0]
+                    if F(ws[got[0] - 1]) <= 0:
+                        msgs.append(f"route-random-demux: packet {u} was handed to output {got[0] - 1} whose weight is {ws[got[0] - 1]} (weights {ws})")
+            if obs.get("draws_used") is not None and obs["draws_used"] != len(injected):
+                msgs.append(f"route-random-demux: {len(injected)} packets, {obs['draws_used']} random draws consumed (one per packet)")
         # the demux: exactly one device per packet, the one the documented rule names; no route and no default: discarded
-        for u in ([] if cast else injected):
+        for u in ([] if (cast or rand) else injected):
             fl = specs[str(u)]["flow"]
             sl = self.slot_of(dm, self.rule(dm, fl))
             want = None if sl is None or sl >= len(slots) or slots[sl] is None else slots[sl][0]
@@ -860,7 +972,11 @@ class RoutePart:
         for k in sorted(set(sink_of.values())):
             for (u, _, _) in crossed[k]:
                 delivered.setdefault(u, []).append(k)
-        for u in ([] if cast else injected):
+        for u in (chosen if rand else []):
+            d = delivered.get(u, [])
+            if len(d) > 1 or (d and d[0] != chosen[u]):
+                msgs.append(f"route-wrong-output: packet {u} was handed to output stage {chosen[u]} and delivered at {d}")
+        for u in ([] if (cast or rand) else injected):
             fl = specs[str(u)]["flow"]
             sl = self.slot_of(dm, self.rule(dm, fl))
             want = None if sl is None or sl >= len(slots) or slots[sl] is None else slots[sl][-1]
@@ -894,6 +1010,8 @@ class RoutePart:
         deliv = sum(len(crossed[k]) for k in sinks)
         if dm["el"] in ("nsplitter", "hub"):
             return len(injected) >= 2 and deliv >= 3
+        if dm["el"] == "randdemux":
+            return len(injected) >= 3 and deliv >= 2
         fates = (1 if deliv else 0) + (1 if any(f.get("dropped") for f in obs["final"][1:]) else 0) + \
                 (1 if any(self.slot_of(dm, self.rule(dm, specs[str(u)]["flow"])) is None for u in injected) else 0)
         return len(injected) >= 3 and deliv >= 1 and fates >= 2
@@ -926,6 +1044,10 @@ class RoutePart:
             keys += ["fswitch:server=" + case["server"], "fswitch:ports=%d" % case["nports"], "fswitch:ends=%d" % len(case["ends"])]
         elif k == "sswitch":
             keys += ["sswitch:ports=%d" % case["nports"], "sswitch:buffer=%s" % case["buffer"]]
+        elif k == "randdemux":
+            tot = sum(F(x) for x in case["probs"])
+            keys += ["randdemux:outputs=%d" % case["nouts"], "randdemux:weights-" + ("sum=1" if tot == 1 else "sum<1" if tot < 1 else "sum>1"),
+                     "randdemux:zero-weight=%s" % any(F(x) == 0 for x in case["probs"]), "randdemux:probs-reassigned=%s" % bool(case.get("reprobs"))]
         elif k in ("nsplitter", "hub"):
             keys += [k + ":outputs=%d" % case["nouts"]]
         else:
